@@ -21,7 +21,7 @@ META = {
                     "reference gridding by construction (events strictly inside cells and magnitude bins)", "tolerance 1e-9*(1+|x|)"],
     "deciding": ["e2e:N", "e2e:S", "e2e:M", "e2e:PL", "e2e:RM", "e2e:MLL", "post:_compute_likelihood", "post:MLL_score", "ties:twin-catalogs"],
 }
-META["added"] = 'Added: MLL full_calculation, events far above the last magnitude edge, file-streamed forecasts with filters, observations gridding exactly like a synthetic catalog (bit-for-bit ties, monitor ties:twin-catalogs). observations with events below the lowest magnitude edge. catalogs bound to another region object, magnitudes one ulp below an edge.'
+META["added"] = 'Added: MLL full_calculation, events far above the last magnitude edge, file-streamed forecasts with filters, observations gridding exactly like a synthetic catalog (bit-for-bit ties, monitor ties:twin-catalogs). observations with events below the lowest magnitude edge. catalogs bound to another region object, magnitudes one ulp below an edge. spatially filtered in-memory forecasts with events outside along one axis.'
 MANIFEST = {
     "technique": "independent re-implementation of the documented statistics as oracle over the real tests' results; runtime post-conditions on _compute_likelihood / cumulative_square_diff / MLL_score; RNG boundary log (numpy.random.choice) aligning each resampled test-distribution entry with its actual resample; status/None signalling checked on empty and undersampled observations",
     "level_text": "For each generated catalog forecast and observation the six public tests run for real; every test-distribution entry, observed statistic, quantile pair and status is compared with an independent implementation of the documented definition fed by reference gridding, including the explicit signalling of undefined statistics (empty observation -> not-valid / None; empty synthetic catalogs skipped where undefined; events in never-sampled cells excluded and flagged 'undersampled').",
@@ -102,6 +102,22 @@ def build(fc, source, tmp):
             mv = numpy.concatenate([numpy.full(min(below, len(evs)), float(mags[0]) - 0.25), mv])
         return fixtures.catalog(lons, lats, mv, region=reg, catalog_id=cid, name=name)
     cats = [mk(evs, j) for j, evs in enumerate(fc["cats"])]
+    if source == "memory_spatial":
+        # every non-empty synthetic catalog also holds an event outside the region along exactly ONE axis (straight north / east of one of its
+        # events); the forecast is configured to filter spatially, so these events belong to no statistic
+        from csep.core.catalogs import CSEPCatalog
+        north = float(reg.origins()[:, 1].max() + reg.dh * 1.5)
+        east = float(reg.origins()[:, 0].max() + reg.dh * 1.5)
+        out = []
+        for j, c_ in enumerate(cats):
+            rows = c_.catalog.tolist()
+            if rows:
+                e0 = rows[0]
+                extra = (b"out%d" % j, e0[1] + 7, north, e0[3], e0[4], e0[5]) if j % 2 else (b"out%d" % j, e0[1] + 7, e0[2], east, e0[4], e0[5])
+                rows = rows[:1] + [extra] + rows[1:]
+            out.append(CSEPCatalog(data=[(r_[0].decode() if isinstance(r_[0], bytes) else r_[0],) + tuple(r_[1:]) for r_ in rows], catalog_id=j, region=reg))
+        f = CatalogForecast(catalogs=out, region=reg, n_cat=len(out), name="cf", filter_spatial=True, apply_filters=True)
+        return f, mk(fc["obs"], name="obs", below=fc.get("obs_below", 0)), reg, mags
     if source == "memory":
         if len(fc["cats"]) % 2 and reg.num_nodes > 1:
             # the synthetic catalogs arrive bound to ANOTHER region object (the same cells listed in reverse, other magnitude edges): the forecast's
@@ -446,7 +462,7 @@ def run(ctx):
     for j in range(n):
         r = ctx.rng("c10", j)
         fc = gen(r, empty_mode=[None, None, None, "some", "all"][j % 5] if j % 7 else "some")
-        src = ["memory", "file_filtered", "file_store", "file_nostore", "memory", "file_filtered"][j % 6]
+        src = ["memory", "file_filtered", "file_store", "file_nostore", "memory_spatial", "file_filtered"][j % 6]
         ex_case(ctx, fc, src, seed=int(r.integers(0, 10 ** 6)))
         if j % 40 == 0:
             ctx.sample({"cells": fc["nx"] * fc["ny"], "mags": fc["nmag"], "synthetic_sizes": [len(c) for c in fc["cats"]][:12], "observed": fc["obs_mode"],
